@@ -437,6 +437,9 @@ func mapsStream(r *vh.Rng, n, reps int, cv *vh.Cases, sum *vh.Summary, idBase in
 			cj["keys"] = ks
 		}
 		tieClass := "none"
+		if kk.name == "iface-composite-mixed" {
+			tieClass = "none:mixed-composite-scalar-keys:" + format // reported per format (the context option differs)
+		}
 		if symAffected {
 			tieClass = "binc-symbols-oob-keys"
 		} else if ties > 0 {
